@@ -268,8 +268,11 @@ def gen_cases(tier, seed):
                     a = mk_spec(sym, indices, charge, h + ctr, lazy=(ctr % 3 == 0), sparse=(ctr % 4 == 1))
                     # --- transpose
                     if nd >= 2:
-                        for p in perms:
+                        for ip, p in enumerate(perms):
                             yield {"contract": "C03.transpose", "a": a, "perm": list(p)}
+                            if (ctr + ip) % 2 == 0:
+                                # the same permutation with some axes counted from the end (numpy spelling)
+                                yield {"contract": "C03.transpose", "a": a, "perm": list(p), "neg_mask": (ctr + ip) % (2**nd - 1) + 1}
                         if ctr % 5 == 0:
                             yield {"contract": "C03.transpose", "a": a, "perm": None}
                     # --- phase_flip / to_dense
@@ -514,9 +517,12 @@ def check_case(d):
 
     if c == "C03.transpose":
         perm = d["perm"]
-        fp = ("T", spec_fp(a), repr(perm))
+        mask = d.get("neg_mask", 0)
+        spelled = None if perm is None else tuple(ax - len(perm) if (mask >> i) & 1 else ax for i, ax in enumerate(perm))
+        feats["negative_axes"] = bool(mask)
+        fp = ("T", spec_fp(a), repr(spelled))
         try:
-            r = xa.transpose(None if perm is None else tuple(perm))
+            r = xa.transpose(spelled)
         except Exception as e:  # noqa: BLE001
             return {"fingerprint": fp, "nontrivial": nontrivial, "failures": [(c + ".no_exception", _exc(e), feats)]}
         p = list(range(len(a["indices"]) - 1, -1, -1)) if perm is None else perm
@@ -532,7 +538,7 @@ def check_case(d):
             names = [f"x{i}" for i in range(ga.ndim)]
             crosscheck_bf([ga], [names], [names[i] for i in p], g)
         fails = _wrap(c, fl, feats)
-        sample = {"sym": sym, "perm": perm, "charge": a["charge"], "duals": [i["dual"] for i in a["indices"]]}
+        sample = {"sym": sym, "perm": perm, "spelled": spelled, "charge": a["charge"], "duals": [i["dual"] for i in a["indices"]]}
 
     elif c == "C03.tensordot":
         b = d["b"]
